@@ -313,6 +313,14 @@ func (e *Enc) run(known compSet) {
 	e.assumeGlobalInvs(st0)
 	if e.c != nil {
 		sc := e.specCtx(st0, st0)
+		for _, cl := range e.c.Captures {
+			t, err := sc.evalBool(cl.Expr)
+			if err != nil {
+				e.unsupported = fmt.Sprintf("captures %q: %v", cl.Text, err)
+				return
+			}
+			e.assert(t)
+		}
 		for _, cl := range e.c.Requires {
 			t, err := sc.evalBool(cl.Expr)
 			if err != nil {
@@ -703,6 +711,30 @@ func (e *Enc) instr(st *State, ins ssa.Instruction) {
 			f := fmt.Sprintf("clo_fv%d", i)
 			e.decls.fun(f, []string{"Int"}, "Int")
 			e.assert(Eq(app(SInt, f, r), e.asTerm(st, e.val(st, b))))
+		}
+		if cc := e.P.Spec.Contracts[funcKey(fn)]; cc != nil && len(cc.Captures) > 0 {
+			sc := e.specCtx(st, e.pre)
+			sc.locals = false
+			for i, b := range ins.Bindings {
+				if i >= len(fn.FreeVars) {
+					break
+				}
+				t := fn.FreeVars[i].Type().(*types.Pointer).Elem()
+				sc.vars[fn.FreeVars[i].Name()] = e.loadVal(st, e.val(st, b), t)
+				sc.vtypes[fn.FreeVars[i].Name()] = t
+			}
+			for i, cl := range cc.Captures {
+				t, err := sc.evalBool(cl.Expr)
+				if err != nil {
+					e.unsupported = fmt.Sprintf("closure %s captures %q: %v", funcKey(fn), cl.Text, err)
+					return
+				}
+				anchor := cl.Label
+				if anchor == "" {
+					anchor = fmt.Sprintf("captures%d", i)
+				}
+				e.oblige("pre", "closure."+fn.Name()+"."+anchor, clauseProps(cl, e.autoProps()), st.reach, t, "captured variables of "+funcKey(fn)+": "+cl.Text, ins.Pos())
+			}
 		}
 		e.vals[ins] = tv(r)
 	case *ssa.ChangeType, *ssa.ChangeInterface:
@@ -1252,6 +1284,7 @@ func (e *Enc) selectInstr(st *State, ins *ssa.Select) {
 func (e *Enc) ret(st *State, ins *ssa.Return) {
 	k := e.retCount
 	e.retCount++
+	e.covers = append(e.covers, cover{reach: st.reach, prefix: len(e.body), blk: e.curBlk, pos: e.pos(ins.Pos())})
 	if e.c == nil {
 		return
 	}
